@@ -18,7 +18,7 @@ RULE = ("waveform batches (N x T x C) with T in 10..200, C in 1..40: realistic b
 ASSUMPTIONS = ["continuous random amplitudes: no exact ties between samples or channels", "half-peak points are asserted only when a sample back "
                "within half of the peak value exists on that side", "scaling uses powers of two so that it is exact in binary floating point"]
 REQUIRED = {"waveforms_compared": 500, "columns_compared": 5000, "scaling_checked": 50, "permutation_checked": 50, "batch_independence_checked": 50,
-            "late_trough": 30, "swap_rows": 20, "contested_extrema_batches": 20}
+            "late_trough": 30, "swap_rows": 20, "contested_extrema_batches": 20, "non_contiguous_batches": 50}
 CASE_TIMEOUT = 120.0
 COLS_IDX = ["peak_trace_idx", "peak_time_idx", "trough_time_idx", "tip_time_idx", "recovery_time_idx"]
 COLS_VAL = ["peak_val", "trough_val", "tip_val", "recovery_val"]
@@ -230,6 +230,17 @@ def run_case(case):
                 if np.argmax(np.abs(a0[:, ch0])) == 0:
                     arr[i, 0, :] = 0
             res.count("single_precision_batches")
+        mk = lambda a_: a_.copy()       # noqa: E731  (every call gets its own array: the library may write into what it is handed)
+        if rng.random() < 0.4:
+            # the same values in another memory layout (a view of an (N, C, T) store, a time window cut out of a longer extraction): not C-contiguous
+            if rng.random() < 0.5:
+                mk = lambda a_: np.ascontiguousarray(a_.swapaxes(-1, -2)).swapaxes(-1, -2)      # noqa: E731
+            else:
+                def mk(a_):
+                    big = np.zeros(a_.shape[:-2] + (a_.shape[-2] + 7, a_.shape[-1]), a_.dtype)
+                    big[..., 3:-4, :] = a_
+                    return big[..., 3:-4, :]
+            res.count("non_contiguous_batches", int(not mk(arr).flags["C_CONTIGUOUS"]))
         N, T, C = arr.shape
         fs = float(rng.choice([30000.0, 30000.0, 25000.0]))
         ms = 0.16
@@ -245,7 +256,7 @@ def run_case(case):
         if any(r["trough_time_idx"] + k == T for r in refs):
             key_exc = "features:recovery-off-by-one:exception"
         try:
-            df = W.compute_spike_features(arr.copy(), fs=fs, recovery_duration_ms=ms)
+            df = W.compute_spike_features(mk(arr), fs=fs, recovery_duration_ms=ms)
         except Exception as e:
             res.exception(key_exc, e, f"{label0} (troughs at {[r['trough_time_idx'] for r in refs]}, k={k})")
             continue
@@ -269,7 +280,7 @@ def run_case(case):
         val_cols = COLS_VAL + ["half_peak_post_val", "half_peak_pre_val"]
         # ---- the peak-channel traces returned on request are the input's columns at the reported peak channel; the table is the same
         try:
-            dfp, pk = W.compute_spike_features(arr.copy(), fs=fs, recovery_duration_ms=ms, return_peak_channel=True)
+            dfp, pk = W.compute_spike_features(mk(arr), fs=fs, recovery_duration_ms=ms, return_peak_channel=True)
             ok = pk.shape == (N, T) and all(np.array_equal(pk[i], arr[i, :, int(df["peak_trace_idx"].iloc[i])], equal_nan=True) for i in range(N))
             ok &= all(np.array_equal(dfp[c].to_numpy(), df[c].to_numpy(), equal_nan=True) for c in df.columns)
             res.check(ok, "features:peak-channel-traces", f"{label0}: return_peak_channel=True: traces are not the peak-channel columns of the input, or the table differs",
